@@ -103,9 +103,10 @@ Record algo := { a_spec : bool; a_np : nat; a_nf : nat;
                  ig_np : nat; ig_nf : nat; e_setups : nat;
                  a_fit : list (nat * Z);
                  a_nset : nat;      (* ghost: how often the DNASpec was stored (setup started) *)
-                 a_win : bool }.    (* ghost: a setup has started and its counter resets are not both done *)         (* proposal id -> fitness stored in the DNA's metadata by Evolution._feedback *)
+                 a_win : bool;      (* ghost: a setup has started and its counter resets are not both done *)
+                 a_fedv : list (nat * nat * Z) }.   (* ghost: a_fed with the reward that was handed to algorithm.feedback *)         (* proposal id -> fitness stored in the DNA's metadata by Evolution._feedback *)
 Definition algo0 := {| a_spec := false; a_np := 0; a_nf := 0; a_fed := []; e_pending := []; e_init := false; e_pop := []; e_gen := 0;
-                       e_lockgen := 0; ig_np := 0; ig_nf := 0; e_setups := 0; a_fit := []; a_nset := 0; a_win := false |}.
+                       e_lockgen := 0; ig_np := 0; ig_nf := 0; e_setups := 0; a_fit := []; a_nset := 0; a_win := false; a_fedv := [] |}.
 
 (* studies are addressed by creation number; [nstudies] of them have been created so far (the others are pristine) *)
 Record gstate := { studies : nat -> study; nstudies : nat; registry : option nat; alg : algo; locks : lockid -> option nat }.
@@ -219,19 +220,22 @@ Definition st_full (b : bool) (st : study) : study :=
 
 Definition al_base (sp : bool) (np nf : nat) (fed : list (nat * nat)) (a : algo) : algo :=
   {| a_spec := sp; a_np := np; a_nf := nf; a_fed := fed; e_pending := e_pending a; e_init := e_init a; e_pop := e_pop a; e_gen := e_gen a;
-     e_lockgen := e_lockgen a; ig_np := ig_np a; ig_nf := ig_nf a; e_setups := e_setups a; a_fit := a_fit a; a_nset := a_nset a; a_win := a_win a |}.
+     e_lockgen := e_lockgen a; ig_np := ig_np a; ig_nf := ig_nf a; e_setups := e_setups a; a_fit := a_fit a; a_nset := a_nset a; a_win := a_win a; a_fedv := a_fedv a |}.
 Definition al_evo (pend : list dna) (ini : bool) (pop : list dna) (gen : nat) (a : algo) : algo :=
   {| a_spec := a_spec a; a_np := a_np a; a_nf := a_nf a; a_fed := a_fed a; e_pending := pend; e_init := ini; e_pop := pop; e_gen := gen;
-     e_lockgen := e_lockgen a; ig_np := ig_np a; ig_nf := ig_nf a; e_setups := e_setups a; a_fit := a_fit a; a_nset := a_nset a; a_win := a_win a |}.
+     e_lockgen := e_lockgen a; ig_np := ig_np a; ig_nf := ig_nf a; e_setups := e_setups a; a_fit := a_fit a; a_nset := a_nset a; a_win := a_win a; a_fedv := a_fedv a |}.
 Definition al_misc (lockgen np nf setups : nat) (a : algo) : algo :=
   {| a_spec := a_spec a; a_np := a_np a; a_nf := a_nf a; a_fed := a_fed a; e_pending := e_pending a; e_init := e_init a; e_pop := e_pop a; e_gen := e_gen a;
-     e_lockgen := lockgen; ig_np := np; ig_nf := nf; e_setups := setups; a_fit := a_fit a; a_nset := a_nset a; a_win := a_win a |}.
+     e_lockgen := lockgen; ig_np := np; ig_nf := nf; e_setups := setups; a_fit := a_fit a; a_nset := a_nset a; a_win := a_win a; a_fedv := a_fedv a |}.
 Definition al_fit (f : list (nat * Z)) (a : algo) : algo :=
   {| a_spec := a_spec a; a_np := a_np a; a_nf := a_nf a; a_fed := a_fed a; e_pending := e_pending a; e_init := e_init a; e_pop := e_pop a; e_gen := e_gen a;
-     e_lockgen := e_lockgen a; ig_np := ig_np a; ig_nf := ig_nf a; e_setups := e_setups a; a_fit := f; a_nset := a_nset a; a_win := a_win a |}.
+     e_lockgen := e_lockgen a; ig_np := ig_np a; ig_nf := ig_nf a; e_setups := e_setups a; a_fit := f; a_nset := a_nset a; a_win := a_win a; a_fedv := a_fedv a |}.
 Definition al_win (n : nat) (w : bool) (a : algo) : algo :=
   {| a_spec := a_spec a; a_np := a_np a; a_nf := a_nf a; a_fed := a_fed a; e_pending := e_pending a; e_init := e_init a; e_pop := e_pop a; e_gen := e_gen a;
-     e_lockgen := e_lockgen a; ig_np := ig_np a; ig_nf := ig_nf a; e_setups := e_setups a; a_fit := a_fit a; a_nset := n; a_win := w |}.
+     e_lockgen := e_lockgen a; ig_np := ig_np a; ig_nf := ig_nf a; e_setups := e_setups a; a_fit := a_fit a; a_nset := n; a_win := w; a_fedv := a_fedv a |}.
+Definition al_fedv (v : list (nat * nat * Z)) (a : algo) : algo :=
+  {| a_spec := a_spec a; a_np := a_np a; a_nf := a_nf a; a_fed := a_fed a; e_pending := e_pending a; e_init := e_init a; e_pop := e_pop a; e_gen := e_gen a;
+     e_lockgen := e_lockgen a; ig_np := ig_np a; ig_nf := ig_nf a; e_setups := e_setups a; a_fit := a_fit a; a_nset := a_nset a; a_win := a_win a; a_fedv := v |}.
 
 Definition th_pc (p : option (nat * nat)) (th : tstate) : tstate :=
   {| pc := p; script := script th; held := held th; r_study := r_study th; r_group := r_group th; r_gnone := r_gnone th; r_trial := r_trial th;
@@ -411,7 +415,9 @@ Definition muts (c : cfg) (me : nat) (e : effect) (g : gstate) (th : tstate) : l
   | EIncNF =>
       (* the statement `self._num_feedbacks += 1`; ghost: the trial being reported is recorded *)
       match r_cur th, otrial st (r_cur th) with
-      | Some i, Some x => [MTrial i TFed; MAlg (al_base (a_spec a) (a_np a) (S (a_nf a)) (a_fed a ++ [(s, t_id x)]) a)]
+      | Some i, Some x => [MTrial i TFed;
+                           MAlg (al_fedv (a_fedv a ++ [(s, t_id x, match r_reward th with Some z => z | None => 0%Z end)])
+                                   (al_base (a_spec a) (a_np a) (S (a_nf a)) (a_fed a ++ [(s, t_id x)]) a))]
       | _, _ => [MAlg (al_base (a_spec a) (a_np a) (S (a_nf a)) (a_fed a) a)]
       end
   | ESetFitness => [MAlg (al_fit ((d_pid (r_dna th), match r_reward th with Some z => z | None => 0%Z end) :: a_fit a) a)]
